@@ -730,10 +730,58 @@ def sweep_tasks():
     for sc in ("l2", "gv", "gc", "cusum", "l2sav", "cs_gv", "sav_l2f", "las_gv", "ad"):
         for op in SWEEP_SCORER_OPS:
             tasks.append({"det": "PELT" if sc in ("l2", "gv", "gc", "ad") else None, "scorer": sc, "op": op, "sharing": False, "fault": "interrupt"})
+    # composite scorers over a cost object that the user also holds and uses directly
+    for comp in ("ChangeScore", "Saving", "LocalAnomalyScore"):
+        for op in SWEEP_SCORER_OPS:
+            tasks.append({"det": None, "scorer": comp, "op": op, "sharing": True, "fault": "interrupt", "inner": True})
     return tasks
 
 
+def inner_sweep_trace(task, rng, seed, idx):
+    """A composite scorer (client 1) over a cost object the user holds as well (client 0):
+    the composite's fit / evaluate is interrupted at every line, then the user works with
+    the cost directly - cuts as a list, a single 1-D cut, an array - and with the
+    composite again."""
+    n, p = 16, 1
+    comp = task["scorer"]
+
+    def mk(did):
+        x = np.round(rng.normal(size=(n, p)), 2)
+        a = int(rng.integers(3, 8))
+        x[a : a + 4] += 4.0
+        return {"id": did, "family": 0, "container": "df", "dtype": "float64", "index": {"kind": "range", "start": 0}, "columns": ["v0"], "values": values_to_json(x)}
+
+    fixed = comp == "Saving"
+    cost = {"__cls__": "L2Cost" if idx % 2 == 0 else "GaussianVarCost", "params": {"param": (0.5 if idx % 2 == 0 else tup(0.0, 1.5)) if fixed else None}}
+    pname = "baseline_cost" if comp == "Saving" else "cost"
+    objects = [{"name": "s0", "spec": cost}, {"name": "s1", "spec": {"__cls__": comp, "params": {pname: {"__ref__": "s0"}}}}]
+    k = {"ChangeScore": 3, "Saving": 2, "LocalAnomalyScore": 4}[comp]
+    base = {2: [2, 12], 3: [0, 4, 9], 4: [0, 4, 9, 14]}[k]
+    cuts = [base, [b + 1 for b in base]]
+    ccuts = [[2, 12], [3, 13]]
+    pre = [{"op": "fit", "c": 0, "d": 1}, {"op": "fit", "c": 1, "d": 0}]
+    if task["op"] == "s_fit":
+        X = {"op": "fit", "c": 1, "d": 1}
+        post = [{"op": "fit", "c": 1, "d": 0}]
+    else:
+        X = {"op": "evaluate", "c": 1, "cuts": cuts}
+        post = []
+    post += [
+        {"op": "fit", "c": 0, "d": 1},
+        {"op": "evaluate", "c": 0, "cuts": ccuts, "cuts_layout": "list"},
+        {"op": "evaluate", "c": 0, "cuts": ccuts[:1], "cuts_1d": True},
+        {"op": "evaluate", "c": 1, "cuts": cuts},
+        {"op": "fit", "c": 1, "d": 1},
+        {"op": "evaluate", "c": 1, "cuts": cuts, "cuts_layout": "list"},
+        {"op": "evaluate", "c": 0, "cuts": ccuts},
+    ]
+    trace = {"property": "C10", "seed": int(seed), "run": int(idx), "tier": "sweep", "config": {"routes": [], "pristine": False, "sweep": task}, "datasets": [mk(0), mk(1)], "objects": objects, "steps": []}
+    return trace, pre, X, post
+
+
 def sweep_trace(task, rng, seed, idx):
+    if task.get("inner"):
+        return inner_sweep_trace(task, rng, seed, idx)
     p = 2 if task["det"] == "MVCAPA" or task["scorer"] == "gc" else 1
     if task["det"] == "StatThresholdAnomaliser":
         p = 1
@@ -853,7 +901,7 @@ def run_sweep(seed, idx, tier, pristine=None):
                 chosen.add(ks[int(rng.integers(len(ks)))])
             for k in sorted(chosen):
                 points.append({"kind": "interrupt", "at": k})
-        if tier != "thorough":
+        if tier != "thorough" and not task.get("inner"):
             # quick: a seeded third of the points
             points = [pt for j, pt in enumerate(points) if (j + idx + seed) % 3 == 0]
     else:
@@ -907,7 +955,7 @@ def extra_checks(seed, tier, args):
     if tier == "thorough":
         idxs = list(range(len(tasks)))
     else:
-        idxs = [i for i in range(len(tasks)) if (i + seed) % 6 == 0]
+        idxs = [i for i in range(len(tasks)) if (i + seed) % 6 == 0 or tasks[i].get("inner")]
     res = runner.run_batch("C10", seed, tier, idxs, workers=args.workers, per_run_guard=900, chunk=1, fn="run_sweep")
     ptasks = pair_tasks()
     pidx = list(range(len(ptasks)))
